@@ -1,6 +1,8 @@
 import Hive.Proofs.DerivedSet
 import Hive.Proofs.DerivedCounter
 import Hive.Proofs.DerivedSorted
+import Hive.Proofs.DerivedWG
+import Hive.Proofs.DerivedLocks
 import Hive.Spec.Derived
 import Hive.Gen.C14_Skel
 /-!
@@ -12,6 +14,7 @@ eviction_state_impl.go, with the repairs listed in known_findings/C14.json).  Se
 quantify over every call history; protocol theorems over every thread pool and every schedule.
 -/
 namespace Hive.Derived
+open Hive.Conc
 
 
 /-! ## DerivedSet / SubtractReactive -/
@@ -163,6 +166,68 @@ theorem C14_sorted_set_absent_weight (s : SS) (e : Nat) (w : Int) (h : s.has e =
 
 example : ((SS.init true).run [.apply [1, 2, 3] [], .weight 2 5, .weight 3 5, .apply [] [1], .weight 1 9]).ents
     = [{ el := 3, w := 5, idx := 0 }, { el := 2, w := 5, idx := 1 }] := by decide
+
+/-! ## WaitGroup under concurrency (protocol model `wgSys`, any number of `Add` / `Done` goroutines) -/
+
+/-- The atomic counter always equals the number of pending elements plus what the calls in flight
+still own of it (pre-incremented elements not yet inserted, duplicates not yet corrected, deletions
+not yet decremented) — for the repaired code and for the code as it was. -/
+theorem C14_waitgroup_counter (fixed : Bool) (c0 c : Cfg WGS WGT) (h0 : WGStart c0) (hr : Reach (wgSys fixed) c0 c) :
+    c.1.counter = (c.1.pending.length : Int) + (((c.2.map weight).sum : Nat) : Int) :=
+  wg_counter_eq fixed c0 c h0 hr
+
+/-- **Triggers only when the last pending element is marked done**: the decision to trigger is only
+ever taken by a decrement that produces 0, and at that moment nothing is pending and no call in
+flight owns a part of the counter (ghost `early` never becomes true); moreover a trigger (decided or
+executed) implies that some `Done` took effect. -/
+theorem C14_waitgroup_only_if (fixed : Bool) (c0 c : Cfg WGS WGT) (h0 : WGStart c0) (hr : Reach (wgSys fixed) c0 c) :
+    c.1.early = false ∧ (c.1.counter = 0 → c.1.pending = [] ∧ ∀ t ∈ c.2, weight t = 0) ∧
+    ((c.1.trig = true ∨ ∃ t ∈ c.2, t.isTrig = true) → 0 < c.1.dones) :=
+  ⟨(wg_no_early_zero fixed c0 c h0 hr).1, (wg_no_early_zero fixed c0 c h0 hr).2, wg_trigger_only_if fixed c0 c h0 hr⟩
+
+/-- **Triggers when the last pending element is marked done** (repaired `Add`): for every pool of
+`Add` / `Done` goroutines and every schedule, once all calls have returned, nothing is pending and
+some `Done` took effect, the WaitGroup has triggered. -/
+theorem C14_waitgroup (c0 c : Cfg WGS WGT) (h0 : WGStart c0) (hr : Reach (wgSys true) c0 c)
+    (hq : ∀ t ∈ c.2, t = .fin) (hp : c.1.pending = []) (hd : 0 < c.1.dones) : c.1.trig = true :=
+  wg_trigger_if c0 c h0 hr hq hp hd
+
+example : WGStart (wgRaceInit 2) := by
+  refine ⟨rfl, ⟨rfl, rfl, rfl, rfl⟩, ?_⟩
+  decide
+
+/-- Witness about `Add` as it was: a duplicate `Add(x)` parked between the failed insertion and the
+counter correction while `Done(x)` runs — everything returns, nothing is pending, `x` was marked done,
+and the WaitGroup has not triggered.  Replayed on the implementation by the `wg race` request through
+the `verif` hook (it failed before 12e6ec7). -/
+theorem C14_waitgroup_old_race_witness :
+    let c := runSched (wgSys false) (wgRaceInit 2) wgRaceSched
+    c.1.pending = [] ∧ c.1.dones > 0 ∧ c.1.trig = false ∧ c.2 = [.fin, .fin] :=
+  wg_old_race_witness
+
+/-! ## No deadlock: lock order over the composed scripts -/
+
+/-- **No combination of the C14 calls deadlocks** (at the level of the lock scripts of
+`Hive/Model/DerivedLocks.lean`): any number of goroutines, each making any sequence of writes to
+inputs with a derived object subscribed, subscriptions, unsubscriptions, SortedSet `Add` / `Delete` /
+reads / weight updates, WaitGroup and EvictionState calls, on any instances, under any schedule,
+never reaches a configuration in which some goroutine is unfinished and none can move.  The
+callback-execution locks are part of the scripts.  Hypothesis of the modelling: the derivation graph
+is acyclic and user callbacks on derived objects do not call back into the inputs. -/
+theorem C14_deadlock_free (callss : List (List Call)) (c : Cfg (List Lock) LT)
+    (hr : Reach lockSys ([], callss.map threadOf) c) : ¬ Deadlock lockSys (fun t => t.script = []) c :=
+  lock_order_deadlock_free callss c hr
+
+/-- Every catalogue script respects the lock ranks. -/
+theorem C14_scripts_ranked (c : Call) : Ranked [] c.script := call_ranked c
+
+/-- Witness about `sortedSet.deleteSorted` as it was (unsubscribing under `s.mutex`): `Delete(e)` and
+a concurrent update of `e`'s weight reach a deadlock; the script violates the lock ranks.  Reproduced
+on the implementation by the `sortedrace` stress scenarios under the progress watchdog (before f29d8ff). -/
+theorem C14_sorted_set_inversion_witness :
+    Deadlock lockSys (fun t => t.script = []) (runSched lockSys ([], inversionThreads) inversionSched) ∧
+    ¬ Ranked [] (sortedDeleteOld 0 7) :=
+  ⟨sorted_inversion_deadlock, sorted_delete_old_not_ranked⟩
 
 /-! ## Regenerated synchronisation skeletons
 
